@@ -77,15 +77,17 @@ Ltac q_auto :=
 Lemma kr_kill_inv k text m : kr_inv k -> exists k', kr_kill k text m = Ok k' /\ kr_inv k'.
 Proof.
   intros [Hok Hk]. destruct (kr_last k) eqn:El.
-  - pose proof Hok as [Hc [Hl [He Hn]]]. specialize (Hk eq_refl). specialize (Hn Hk).
+  - pose proof Hok as [Hc [Hl [He [Hn [He2 Hn2]]]]]. specialize (Hk eq_refl). specialize (Hn Hk). specialize (Hn2 Hk).
     destruct (nth_error (kr_slots k) (kr_index k)) as [s|] eqn:En.
     2:{ apply nth_error_None in En. lia. }
     destruct (kr_kill_more k text m s El Hc En) as [k' [H1 [H2 [H3 [H4 [H5 [H6 _]]]]]]].
+    pose proof (kr_kill_more_newest k text m s k' El Hc En H1) as H7.
     assert (Hne : kr_slots k' <> []).
     { intros Hx. rewrite Hx in H6. cbn in H6. destruct (kr_slots k); [congruence|discriminate]. }
     exists k'. split; [exact H1|]. split; [|intros _; exact Hne].
-    unfold kr_ok. rewrite H4, H5, H6.
-    split; [exact Hc|]. split; [exact Hl|]. split; [intros Hx; contradiction|intros _; exact Hn].
+    unfold kr_ok. rewrite H4, H5, H6, H7.
+    split; [exact Hc|]. split; [exact Hl|]. split; [intros Hx; contradiction|]. split; [intros _; exact Hn|].
+    split; [intros Hx; contradiction|intros _; exact Hn2].
   - destruct (kr_kill_new k text m Hok) as [k' [H1 [H2 [H3 [H4 _]]]]]; [congruence|].
     exists k'. split; [exact H1|]. split; [exact H4|]. intros _ Hx. unfold cur_slot in H2. rewrite Hx in H2.
     destruct (kr_index k'); discriminate.
@@ -518,9 +520,9 @@ Section NoPanic.
     intros Hinv. unfold kr_yank_pop. destruct (kr_last k); cbn [fst]; try exact Hinv.
     destruct (kr_slots k) as [|s0 sl] eqn:Es; cbn [fst]; [exact Hinv|]. cbv zeta.
     match goal with |- context [nth_error ?l ?i] => destruct (nth_error l i) as [x|] eqn:En end; cbn [fst]; [|exact Hinv].
-    split; [|cbn; discriminate]. destruct Hinv as [[Hc [Hl [He Hn]]] _]. unfold kr_ok. cbn [kr_slots kr_cap kr_index].
-    rewrite Es in *. split; [exact Hc|]. split; [exact Hl|]. split; [discriminate|]. intros _.
-    apply nth_error_Some. rewrite En. discriminate.
+    split; [|cbn; discriminate]. destruct Hinv as [[Hc [Hl [He [Hn [He2 Hn2]]]]] _]. unfold kr_ok. cbn [kr_slots kr_cap kr_index kr_newest].
+    rewrite Es in *. split; [exact Hc|]. split; [exact Hl|]. split; [discriminate|]. split; [intros _; apply nth_error_Some; rewrite En; discriminate|].
+    split; [discriminate|exact Hn2].
   Qed.
 
   Lemma np_edit_yank_pop size text : np (edit_yank_pop U cfg size text).
